@@ -273,9 +273,12 @@ func (vc *VC) calleeEnv(ci *calleeInfo, heap, old *Heap) *Env {
 	return e
 }
 
+// bindLets: lets name entry values of the callee, so they are evaluated in the call's pre-state.
 func (vc *VC) bindLets(e *Env, c *Contract) {
+	pe := *e
+	pe.heap = e.old
 	for _, l := range c.Lets {
-		e.vars[l.Name] = e.tr(l.Expr)
+		e.vars[l.Name] = pe.tr(l.Expr)
 	}
 }
 
